@@ -46,6 +46,11 @@ func buildCase(c *Case) (bt *built, err error, pan any) {
 		return &built{c: c, json: js}, e, nil
 	}
 	d := derive(c)
+	if c.ClaimMetric {
+		for _, vt := range model.VehicleTypes() {
+			vt.TravelDurationExpression().SetSatisfiesTriangleInequality(true)
+		}
+	}
 	// loose groups exist in the model API only: combine the (root) plan units of their stops into a plan-all unit that
 	// may spread over vehicles
 	for _, g := range c.Loose {
